@@ -47,6 +47,12 @@ fn judge(t: &Tuple, rec: &mut Recorder) {
     let case = format!("tuple:{}", t.text());
     rec.case(hash_bytes(case.as_bytes()), t.src != t.dst && t.sp != t.dp);
     rec.class(if t.v6 { "oracle:ipv6-tuple" } else { "oracle:ipv4-tuple" }, || case.clone());
+    if t.src == t.dst && t.sp == t.dp {
+        rec.class("oracle:identical-endpoints", || case.clone());
+    }
+    if t.v6 && t.src[..10] == [0; 10] && t.src[10..12] == [0xff, 0xff] && t.dst[..10] == [0; 10] && t.dst[10..12] == [0xff, 0xff] {
+        rec.class("oracle:both-ipv4-mapped", || case.clone());
+    }
     let mut bad: Vec<(String, String)> = Vec::new();
     let r = guard(|| {
         let mut bad: Vec<(String, String)> = Vec::new();
@@ -153,12 +159,8 @@ fn judge(t: &Tuple, rec: &mut Recorder) {
                 }
             }
             // Unix paths built from the same bytes
-            let mut ps = [0u8; 108];
-            let mut pd = [0u8; 108];
-            for i in 0..108 {
-                ps[i] = s[i % 16].wrapping_add(i as u8);
-                pd[i] = d[i % 16].wrapping_add(i as u8) ^ 0x80;
-            }
+            // Unix paths: raw bytes or realistic spellings (dictionary), derived from the tuple
+            let (ps, pd) = spec::build::Addr::unix_paths(u64::from_be_bytes([s[8], s[9], s[10], s[11], d[12], d[13], d[14], d[15]]) ^ t.sp as u64);
             let u = v2::Unix::new(ps, pd);
             n += 2;
             if u.source != ps || u.destination != pd {
@@ -191,10 +193,10 @@ impl Monitor for C19 {
         "C19"
     }
     fn rule(&self) -> &'static str {
-        "cases = (source address, destination address, source port, destination port) tuples with pairwise distinct components, boundary x boundary and random, for IPv4 and IPv6 (IPv6 with random flow-info and scope-id on the socket addresses), passed through every Into source the constructors accept ([u8;4], u32, Ipv4Addr; [u8;16], [u16;8], u128, Ipv6Addr), IPv4::new / IPv6::new / Addresses::new_tcp4 / new_tcp6 / Unix::new, From<IPv4|IPv6|Unix> and From<(SocketAddr, SocketAddr)> in both protocol versions including mixed-family pairs; public fields and variants are compared with the arguments; non-trivial = source != destination and source port != destination port; distinct = distinct tuples"
+        "cases = (source address, destination address, source port, destination port) tuples - pairwise distinct components in general, but also semantically special addresses (IPv4-mapped / -compatible, link-local with an embedded zone, multicast, NAT64, 6to4, loopback; both endpoints from the same class half of the time) and completely identical endpoints (1 in 32) -, boundary x boundary and random, for IPv4 and IPv6 (IPv6 with random flow-info and scope-id on the socket addresses), passed through every Into source the constructors accept ([u8;4], u32, Ipv4Addr; [u8;16], [u16;8], u128, Ipv6Addr), IPv4::new / IPv6::new / Addresses::new_tcp4 / new_tcp6 / Unix::new, From<IPv4|IPv6|Unix> and From<(SocketAddr, SocketAddr)> in both protocol versions including mixed-family pairs; public fields and variants are compared with the arguments; non-trivial = source != destination and source port != destination port; distinct = distinct tuples"
     }
     fn streams(&self, tier: Tier) -> Vec<StreamSpec> {
-        vec![stream("c19-v4", tier.n(50, 250_000, 25_000_000)), stream("c19-v6", tier.n(50, 250_000, 25_000_000))]
+        vec![stream("c19-v4", tier.n(50, 1_000_000, 25_000_000)), stream("c19-v6", tier.n(50, 1_000_000, 25_000_000))]
     }
     fn run_case(&self, stream: &str, idx: u64, seed: u64, rec: &mut Recorder) {
         let mut rng = Rng::for_case(seed, stream_id(stream), idx);
@@ -209,12 +211,23 @@ impl Monitor for C19 {
             Tuple { v6: false, src: s, dst: d, sp, dp, flow: (0, 0), scope: (0, 0) }
         } else {
             let (a, b) = rand_v6_pair(rng);
-            Tuple { v6: true, src: bytes_of(a), dst: bytes_of(b), sp, dp, flow: (rng.next() as u32, rng.next() as u32), scope: (rng.next() as u32, rng.next() as u32) }
+            let (f, sc) = (rng.next() as u32, rng.next() as u32);
+            let same = a == b && sp == dp;
+            let zero = rng.chance(1, 4);
+            Tuple {
+                v6: true,
+                src: bytes_of(a),
+                dst: bytes_of(b),
+                sp,
+                dp,
+                flow: if zero { (0, 0) } else if same { (f, f) } else { (f, rng.next() as u32) },
+                scope: if zero { (0, 0) } else if same { (sc, sc) } else { (sc, rng.next() as u32) },
+            }
         };
         judge(&t, rec);
     }
     fn floor(&self, _tier: Tier) -> Vec<&'static str> {
-        vec!["oracle:ipv4-tuple", "oracle:ipv6-tuple"]
+        vec!["oracle:ipv4-tuple", "oracle:ipv6-tuple", "oracle:identical-endpoints", "oracle:both-ipv4-mapped"]
     }
     fn replay(&self, case: &str, rec: &mut Recorder) {
         if let Some(t) = case.strip_prefix("tuple:").and_then(Tuple::parse) {
